@@ -162,6 +162,13 @@ func (P *Program) ModuleFuncs() []*ssa.Function {
 			case *ssa.Function:
 				add(m)
 			case *ssa.Type:
+				if nt, ok := m.Type().(*types.Named); ok && nt.TypeParams().Len() > 0 {
+					// generic type: analyse the generic bodies of its methods
+					for i := 0; i < nt.NumMethods(); i++ {
+						add(P.Prog.FuncValue(nt.Method(i)))
+					}
+					continue
+				}
 				for _, T := range []types.Type{m.Type(), types.NewPointer(m.Type())} {
 					ms := P.Prog.MethodSets.MethodSet(T)
 					for i := 0; i < ms.Len(); i++ {
